@@ -115,8 +115,12 @@ CHECKS = {
        "truncate_monotone (n <= m: what TruncateUptoTx(n) deletes, TruncateUptoTx(m) deletes), headers_untouched + current_chunk_kept (only chunk files change, only removed, never the active one), "
        "export_total, export_full_after_truncate (tx >= n exported in full, mutex free), export_releases_lock (EVERY exit of the entry loop, the two 'partially truncated' errors included, "
        "has released _valBsMux) + export_keeps_mutex_free (so no sequence of ExportTx calls blocks; the former failing histories of F4 are kept as examples); a witness of the negation for the defect "
-       "left in the code: truncate_unsafe_for_inflight_writer (K6: values staged before the truncation by a tx that commits after it are deleted); empty_first_value_blocks_truncation (effectiveness gap). "
-       "Tie: real stores (concurrent committers, histories replicated in shuffled order so values land out of id order, MaxIOConcurrency 1..4, FileSize 48..1000, empty values, embedded on/off, "
+       "left in the code: truncate_unsafe_for_inflight_writer (K6: values staged before the truncation by a tx that commits after it are deleted); empty_first_value_blocks_truncation (effectiveness gap); "
+       "walks_as_in_code (the loop headers of TruncateUptoTx regenerated from the source at every run are the ones the model transcribes: forward walk from minTxID to a variable defined as s.LastCommittedTxID() and written nowhere else), "
+       "front_walk_ends_at_last + front_walk_covers_every_later_tx (the tombstone of a vlog is at or below the first value of EVERY committed tx n..last of that vlog, however far from n), "
+       "short_front_walk_unsafe (for EVERY constant c a forward walk cut short at n+c loses a value of a committed tx >= n: a committer overtaken by c+1 others after writing its values). "
+       "Tie: real stores (concurrent committers, histories replicated in shuffled order so values land out of id order, late committers through ReplicateTx started arbitrarily early so that value-log order and id order "
+       "differ by MORE than MaxConcurrency (2..6; MaxActiveTransactions down to the exact minimum), a heavy committer racing light ones, every cut n, MaxIOConcurrency 1..4, FileSize 48..1000, empty values, embedded on/off, "
        "ascending/repeated/out-of-range cuts, reopen): the observed placement (vlog, offset, length per entry) and chunk files are fed to the driver; tombstones (from the store's own log lines), "
        "error class, surviving chunk files, per-entry readability and ExportTx outcome incl. lock state are compared; independent oracle = recorded values, tx log/Alh/DualProof snapshots, "
        "TryLock on _valBsMux, liveness bounds; plus pkg/database (vlog truncator with CopySQLCatalog, SQL, documents, restart).",
